@@ -327,7 +327,7 @@ func runPrecWrap(m *model.Model, s *ob.Set) {
 			continue
 		}
 		live := m.Live(fn)
-		var sites []*ssa.BinOp
+		var sites, countSites []*ssa.BinOp
 		for _, b := range fn.Blocks {
 			if !live[b.Index] {
 				continue
@@ -358,8 +358,40 @@ func runPrecWrap(m *model.Model, s *ob.Set) {
 					} else {
 						wide[fn]++
 					}
+					continue
+				}
+				// a count that is not bounded by the word size of the library — the bit length
+				// of a big.Int, a digit count — narrowed to 32 bits and scaled by a constant in
+				// 32-bit arithmetic: the product wraps from count = 2^32/c on (30103 × bits wraps
+				// at 142 676 bits, a 43 000-digit integer)
+				if narrow && bo.Op == token.MUL {
+					isCount := func(v ssa.Value) bool {
+						cv, ok := v.(*ssa.Convert)
+						if !ok {
+							return false
+						}
+						call, ok := stripConv(cv.X).(*ssa.Call)
+						if !ok || model.BuiltinName(&call.Call) != "" {
+							return false
+						}
+						rt, ok := call.Type().Underlying().(*types.Basic)
+						return ok && rt.Info()&types.IsInteger != 0
+					}
+					c, other := int64(0), ssa.Value(nil)
+					if k, ok := model.ConstInt(bo.Y); ok {
+						c, other = k, bo.X
+					} else if k, ok := model.ConstInt(bo.X); ok {
+						c, other = k, bo.Y
+					}
+					if other != nil && c >= 16 && isCount(other) {
+						countSites = append(countSites, bo)
+					}
 				}
 			}
+		}
+		if len(countSites) > 0 {
+			bo := countSites[0]
+			s.Bad(R, m.FuncName(fn)+"/count", m.InstrPos(bo), fmt.Sprintf("%s: a count returned by a method (a bit length, a digit count) is narrowed to 32 bits and multiplied by a constant in 32-bit arithmetic: the product wraps for large operands and the buffer or precision derived from it comes out too small", m.InstrPos(bo)))
 		}
 		if len(sites) == 0 {
 			continue
